@@ -601,6 +601,96 @@ let judge _id (c : cursor) (r : cursor) : bool * string =
     if single && not (mat_eq !flat i_flat) then oracle_fail "coop_single_eq_qlearning" "QLearning::stepUpdateQ" "flat tables differ";
     if not (mat_eq !flat i_flat) then disagree "ql_step" "QLearning::stepUpdateQ" "flat Q differs";
     (List.length hist > 1, if single then "coop_single" else "coop_general")
+  | "cmodel" ->
+    let sS = next_nats c in let sA = next_nats c in
+    let nS = List.length sS in
+    let pss = List.init nS (fun _ -> let ag = next_nats c in let fs = next_list c next_nats in { psAgents = ag; psFeatures = fs }) in
+    let g = List.fold_left (fun g ps -> match graph_push g ps with PushOk g' -> g' | _ -> failwith "generator: invalid parent set") (graph_new sS sA) pss in
+    let ts = List.init nS (fun _ -> let rows = next_int c in let cols = next_int c in
+                            List.init rows (fun _ -> List.init cols (fun _ -> next_q c))) in
+    let rewards = read_fm c in
+    let _discount = next_q c in
+    let spS = Array.of_list (il sS) and spA = Array.of_list (il sA) in
+    let fsize sp tag = List.fold_left (fun a k -> a * sp.(k)) 1 tag in
+    let psA = Array.of_list pss in
+    let tsA = Array.of_list (List.map (fun m -> Array.of_list (List.map Array.of_list m)) ts) in
+    let o_prob s a s1 =
+      let p = ref q_one in
+      for f = 0 to nS - 1 do
+        let ps = psA.(f) in
+        let aid = o_radix spA (il ps.psAgents) a in
+        let start = List.fold_left (fun acc t -> acc + fsize spS (il t)) 0 (List.filteri (fun i _ -> i < aid) ps.psFeatures) in
+        let pid = o_radix spS (il (List.nth ps.psFeatures aid)) s in
+        p := q_mul !p tsA.(f).(start + pid).(s1.(f))
+      done; !p in
+    let nq = next_int c in
+    for _q = 1 to nq do
+      let s = next_nats c in let a = next_nats c in
+      let sa = Array.of_list (il s) and aa = Array.of_list (il a) in
+      let per_basis = List.map (fun b -> o_bm_value spS spA b sa aa) rewards in
+      let flat = q_sum per_basis in
+      let check_s1 site s1 p =
+        if List.length s1 <> nS || List.exists2 (fun v sz -> int_of_nat v >= int_of_nat sz) s1 sS then
+          oracle_fail "sampled_state_in_support" site "sampled next state out of range";
+        let e = o_prob sa aa (Array.of_list (il s1)) in
+        if not (q_eq p e) then oracle_fail "ddn_product" "CooperativeModel::getTransitionProbability" "probability is not the product of the local probabilities";
+        if not (q_lt q_zero e) then oracle_fail "sampled_state_in_support" site "sampled next state has probability 0" in
+      (* sampleSR *)
+      let s1 = next_nats r in let rw = next_q r in let p = next_q r in
+      check_s1 "CooperativeModel::sampleSR" s1 p;
+      if not (q_eq rw flat) then oracle_fail "sampleSRs_rewards_flat" "CooperativeModel::sampleSR" ("reward " ^ string_of_q rw ^ " is not the flat reward " ^ string_of_q flat);
+      (* sampleSRs (by value, then into dirty buffers) *)
+      for variant = 1 to 2 do
+        let s1b = next_nats r in let rews = next_qs r in
+        let site = "CooperativeModel::sampleSRs" in
+        if not (qs_eq rews per_basis) then
+          oracle_fail "sampleSRs_rewards_flat" site ("per-basis rewards " ^ str_qs rews ^ " expected " ^ str_qs per_basis);
+        if not (qs_eq rews (sampleSRs_rewards sS sA rewards s a)) then disagree "sampleSRs_rewards" site "differ";
+        if variant = 1 then (let p = next_q r in check_s1 site s1b p)
+        else begin
+          let er = next_q r in
+          if List.length s1b <> nS || List.exists2 (fun v sz -> int_of_nat v >= int_of_nat sz) s1b sS then
+            oracle_fail "sampled_state_in_support" site "sampled next state out of range (dirty buffer)";
+          if not (q_lt q_zero (o_prob sa aa (Array.of_list (il s1b)))) then oracle_fail "sampled_state_in_support" site "sampled next state has probability 0";
+          if not (q_eq er flat) then oracle_fail "sampleSRs_rewards_flat" "CooperativeModel::getExpectedReward" "expected reward is not the flat reward";
+          if not (q_eq er (expectedReward sS sA rewards s a)) then disagree "expectedReward" "CooperativeModel::getExpectedReward" "differ"
+        end
+      done
+    done;
+    (List.length rewards > 0 && nq > 0, "cmodel")
+  | "sparse" ->
+    let sS = next_nats c in let sA = next_nats c in
+    let rules0 = next_list c (fun c -> let sk = next_nats c in let sv = next_nats c in let ak = next_nats c in let av = next_nats c in
+                               let v = next_q c in { rSK = sk; rSV = sv; rAK = ak; rAV = av; rVal = v }) in
+    let discount = next_q c in let alpha = next_q c in
+    let hist = next_list c (fun c -> let s = next_nats c in let a = next_nats c in let s1 = next_nats c in let rew = next_qs c in (s, a, s1, rew)) in
+    let nS = List.length sS and nA = List.length sA in
+    let spS = il sS and spA = il sA in
+    let nflatA = List.fold_left ( * ) 1 spA and nflatS = List.fold_left ( * ) 1 spS in
+    (* a "table" rule set: one rule per full (state, action) pair, full tags, listed in index order *)
+    let full l n = nats_eq l (List.init n nat_of_int) in
+    let table = List.length rules0 = nflatS * nflatA &&
+                List.for_all (fun r -> full r.rSK nS && full r.rAK nA) rules0 &&
+                List.mapi (fun i _ -> i) rules0 = List.map (fun r -> int_of_nat (toIndex sS r.rSV) * nflatA + int_of_nat (toIndex sA r.rAV)) rules0 in
+    let rules = ref rules0 in
+    let flat = ref (List.init nflatS (fun si -> List.init nflatA (fun ai -> (List.nth rules0 (if table then si * nflatA + ai else 0)).rVal))) in
+    List.iter (fun (s, a, s1, rew) ->
+        let i_a1 = next_nats r in
+        let i_vals = List.map (fun v -> match v with Fin x -> x | _ -> oracle_fail "sparse_single_eq_qlearning" "SparseCooperativeQLearning::stepUpdateQ" "non-finite rule value")
+            (next_list r next_x) in
+        if table then begin
+          let rowv = List.nth !flat (int_of_nat (toIndex sS s1)) in
+          let v = List.nth rowv (int_of_nat (toIndex sA i_a1)) in
+          if not (q_eq v (q_maxl rowv)) then oracle_fail "sparse_single_eq_qlearning" "QGreedyPolicy::sampleAction" "the action used in the backup is not greedy"
+        end;
+        rules := sparse_step (nat_of_int nA) alpha discount !rules s a s1 i_a1 rew;
+        flat := ql_step alpha discount !flat (((toIndex sS s, toIndex sA a), toIndex sS s1), q_sum rew);
+        if table && not (qs_eq i_vals (List.concat !flat)) then
+          oracle_fail "sparse_single_eq_qlearning" "SparseCooperativeQLearning::stepUpdateQ" "table-shaped rule set differs from flat QLearning with the summed reward";
+        if not (qs_eq (List.map (fun r -> r.rVal) !rules) i_vals) then disagree "sparse_step" "SparseCooperativeQLearning::stepUpdateQ" "rule values differ") hist;
+    let i_flat = read_mat r in
+    if table && not (mat_eq !flat i_flat) then disagree "ql_step" "QLearning::stepUpdateQ" "flat Q differs";
+    (List.length hist > 1, if table then "sparse_table" else "sparse_rules")
   | k -> failwith ("unknown case kind " ^ k)
 
 let () = main_loop judge
